@@ -461,6 +461,10 @@ func judge(s source, t *target, mode int) (v verdict) {
 				if !ok {
 					fail("non-finite source converted with nil error to %v", gf)
 				}
+			} else if gt := s.goType(); gt == "float32" || gt == "float64" {
+				// NaN and the infinities are values of both float types: a float source holding one fits
+				// the float target ("every value that fits the target type converts successfully")
+				fail("a %s holding a non-finite value fits %s but the conversion failed: %v", gt, t.name, err)
 			}
 			return
 		}
